@@ -65,7 +65,10 @@ class Recorder:
         def zeros(kind):
             def h(I, args, kwargs, node):
                 shp = args[0]
-                o = Opaque("alloc@%s" % node.lineno, {"shape": shp, "fill": kind if kind != "full" else (args[1] if len(args) > 1 else None), "dtype": kwargs.get("dtype"), "line": node.lineno})
+                dt = kwargs.get("dtype")
+                if getattr(dt, "kind", None) == "builtin":
+                    dt = {"float": "float64", "int": "int64"}.get(dt.dotted, dt.dotted)  # dtype=float, dtype=object, ...
+                o = Opaque("alloc@%s" % node.lineno, {"shape": shp, "fill": kind if kind != "full" else (args[1] if len(args) > 1 else None), "dtype": dt, "line": node.lineno})
                 rec.arrays.append(o)
                 return o
             return h
@@ -191,6 +194,20 @@ def io_obligations(P):
                     obs.append(req_ob("R-NC-LABELS", site, "%s slot k belongs to the tower named in tower slot k %s" % (var, tag), ok, detail=repr(vals)[:160], key={"var": var}))
                 tm = cd.get("time")
                 tvals = tm.items[1] if isinstance(tm, Tup) and len(tm.items) >= 2 else None
+                if isinstance(tvals, Opaque) and "shape" in tvals.attrs:
+                    # the labels collected in a pre-allocated array: its element type must hold any string (object), a fixed-width
+                    # string type clips longer labels; the entries are what was stored at each step's own index
+                    dt = tvals.attrs.get("dtype")
+                    okdt = dt in ("object", "O") or (isinstance(dt, Opaque) and dt.name in ("object",))
+                    fixed = isinstance(dt, str) and (dt[:1] in ("U", "S") or dt[:2] in ("<U", ">U", "|S") or dt in ("str", "bytes"))
+                    obs.append(req_ob("R-NC-LABELS", site, "the time labels are collected in a container that holds strings of any length %s" % tag, True if okdt else False if fixed else None,
+                                      detail=None if okdt else "dtype %r%s" % (dt, ": labels longer than the fixed width are clipped" if fixed else "")))
+                    names_of = [k for k, v in r.env.items() if v is tvals]
+                    got = []
+                    for t in range(n_time):
+                        cand = [val for nm, idx, val in arr_stores if nm in names_of and isinstance(idx, Expr) and idx.eq(alg.const(t))]
+                        got.append(cand[-1] if cand else Unknown("no label stored at index %d" % t))
+                    tvals = Tup(got, "list")
                 obs.append(req_ob("R-NC-LABELS", site, "one time label per step, in step order %s" % tag, isinstance(tvals, Tup) and len(tvals.items) == n_time))
                 if isinstance(tvals, Tup) and len(tvals.items) == n_time:
                     for t, lab in enumerate(tvals.items):
@@ -232,8 +249,10 @@ def io_obligations(P):
                         for vname, e in enc.items:
                             if isinstance(e, Tup) and e.kind == "dict":
                                 for k, v in e.items:
+                                    if k == "_FillValue" and (v is None or (isinstance(v, Expr) and v.eq(alg.sym("nan")))):
+                                        continue  # no fill value, or NaN (what the writer uses for floats anyway): no number is lost
                                     if k not in LOSSLESS_ENCODING:
-                                        bad.append("%s.%s" % (vname, k))
+                                        bad.append("%s.%s%s" % (vname, k, "=%r (every cell holding exactly this number reads back as missing)" % (v,) if k == "_FillValue" and isinstance(v, Expr) else ""))
                             else:
                                 bad.append("%s=?" % vname)
                     elif enc is not None:
